@@ -2,6 +2,7 @@ package main
 
 import (
 	"fmt"
+	"regexp"
 	"go/types"
 	"sort"
 	"strings"
@@ -74,8 +75,17 @@ func isByte(t types.Type) bool {
 	return ok && (b.Kind() == types.Uint8)
 }
 
+var reCanonByte = regexp.MustCompile(`\bbyte\b`)
+var reCanonRune = regexp.MustCompile(`\brune\b`)
+var reCanonAny = regexp.MustCompile(`\bany\b`)
+
+// typeKey: canonical name of a type (byte/uint8, rune/int32 and any/interface{} identified).
 func typeKey(t types.Type) string {
-	return types.TypeString(t, func(p *types.Package) string { return p.Path() })
+	s := types.TypeString(t, func(p *types.Package) string { return p.Path() })
+	s = reCanonByte.ReplaceAllString(s, "uint8")
+	s = reCanonRune.ReplaceAllString(s, "int32")
+	s = reCanonAny.ReplaceAllString(s, "interface{}")
+	return s
 }
 
 func shortType(t types.Type) string {
@@ -313,6 +323,7 @@ const preludeAny = `(declare-sort F64 0)
 (declare-datatypes ((Slc 1)) ((par (T) ((mkslc (sarr (Array Int T)) (soff Int) (slen Int))))))
 (declare-datatypes ((Any 0)) (((anil) (aint (atag_i Int) (aival Int)) (aref (atag_r Int) (arval Int)) (abool (atag_b Int) (abval Bool)) (astr (atag_s Int) (asval String)) (af64 (atag_f Int) (afval F64)) (atime (atag_t Int) (atval Time)) (aother (atag_o Int) (aoid Int)) (aerr (aerrid Int)))))
 (define-fun atag ((a Any)) Int (ite ((_ is aint) a) (atag_i a) (ite ((_ is aref) a) (atag_r a) (ite ((_ is abool) a) (atag_b a) (ite ((_ is astr) a) (atag_s a) (ite ((_ is af64) a) (atag_f a) (ite ((_ is atime) a) (atag_t a) (ite ((_ is aother) a) (atag_o a) (ite ((_ is aerr) a) (- 1) 0)))))))))
+(define-fun ws$re () RegLan (re.union (re.range "\u{9}" "\u{d}") (str.to_re " ") (str.to_re "\u{c2}\u{85}") (str.to_re "\u{c2}\u{a0}") (str.to_re "\u{e1}\u{9a}\u{80}") (re.++ (str.to_re "\u{e2}\u{80}") (re.range "\u{80}" "\u{8a}")) (str.to_re "\u{e2}\u{80}\u{a8}") (str.to_re "\u{e2}\u{80}\u{a9}") (str.to_re "\u{e2}\u{80}\u{af}") (str.to_re "\u{e2}\u{81}\u{9f}") (str.to_re "\u{e3}\u{80}\u{80}")))
 (declare-const time$zero Time)
 (declare-const f64$zero F64)
 `
